@@ -227,6 +227,14 @@ def run(ctx):
         ctx.ok("C10.6", f"{Q}: the argument is only read; the result is a list allocated in the call", fwhere,
                "no mutating method call or subscript store on the parameter")
 
+    # ---- C10.7: witness search on small list shapes, independent of the shape of the code ---------------------------------
+    try:
+        from . import compact_scenarios
+        from .rules_C06 import Setup as _Setup
+        sc = compact_scenarios.run_uncompact(ctx, _Setup(ctx))
+    except (Budget, _Unmodelled) as e:
+        sc = {"stopped": str(e)}
+    ctx.analysed["list_shape_scenarios"] = sc
     for text, node in sh.problems:
         ctx.unk("C10.2", f"{Q}: {text}", core.loc(COMPACT, node), "uncompact has left the modelled two-pass shape")
     if not sh.ok:
